@@ -108,12 +108,13 @@
   (m) the audit, row by row.  `AuditRun` packages what the walk through `auditResponse` starts from
       (`auditRun_exists`: every request whose scan reaches a TSIG record has one; `audit_eq_of_run`:
       its audit is `auditResponse` on the model's view).  `C10_audit_nofit`: row 4 (the reply TSIG does
-      not fit), whatever the outcome — the audit returns no tag.  `audit_rejected_core`: row 1 (rejected,
-      the reply fits) — every clause of the audit holds, the MAC of the signed BADTIME reply being a
-      hypothesis; `C10_audit_rejected_unsigned`: so the audit returns no tag for BADKEY / FORMERR /
-      BADSIG (`Proofs/AuditDecoded.decoded_nodata_tsig`: the no-data response with its TSIG record
-      decoded; `labelsOf_of_lower`: the decoded owner has the key name's labels up to case;
-      `stopReply_cases`: the reply mode per outcome).
+      not fit), whatever the outcome — the audit returns no tag.  `C10_audit_rejected`: row 1 (rejected, the reply
+      fits: BADKEY / FORMERR / BADSIG unsigned, BADTIME signed) — the audit returns no tag
+      (`Proofs/AuditDecoded.decoded_nodata_tsig`: the no-data response with its TSIG record decoded;
+      `labelsOf_of_lower`: the decoded owner has the key name's labels up to case; `stopReply_cases`: the
+      reply mode per outcome; `Proofs/FinishTsigPos.finish_tsig_pos` / `tsig_prefix_of_good`: the decoded
+      TSIG record starts exactly where the MAC input ends, for every valid writer — answers included;
+      `Proofs/AuditMac.response_mac_audit`: (1e), the MAC is the audit's `specMac`).
 
   Recorded correction of the *oracle* (`Spec.ServerTsig.audit`): the clause "answered normally"
   compares with the response to `stripTsigRr req`, which decrements ARCOUNT (octets 10–11).  The name
@@ -134,8 +135,8 @@
 
   Proved: (a)–(m).  Not proved, precisely:
   (1) `C10_full` itself.  Of the audit, the clauses of `auditResponse` *after* the response is decoded
-      remain for the BADTIME reply of row 1 (its MAC, (1e)) and for rows 2–3 (row 4 is closed:
-      `C10_audit_nofit`; row 1 unsigned: `C10_audit_rejected_unsigned`), all of which need first
+      remain for rows 2–3, the authenticated requests (row 4 is closed: `C10_audit_nofit`; row 1:
+      `C10_audit_rejected`), all of which needed first
       (1a) (closed: `C10_request_view`, (j)) the request-side link: `viewRequest` (the audit's own walk
            to the TSIG RR: `findTsig`, `specDecodeName`, `labelsOf`, `parseRdata`, the request prefix)
            yields the key name, RDATA fields and prefix of the model's `t` / `mw` of the same `TsigRun`;
@@ -151,12 +152,14 @@
            `modelOutcome_stopReply` / `modelOutcome_authenticated` relate it to `tsigStopReply` and to
            the authenticated rows) — gives `tsig-error-*`, `rcode-*`, `notauth-on-authenticated` once
            combined with the rows of (h);
-      (1d) `parseRdata (tsigRdata rr alg mac)` = the fields of `rr` (round trip) — gives `fudge`,
+      (1d) (closed for row 1: `C10_audit_rejected`) `parseRdata (tsigRdata rr alg mac)` = the fields of `rr` (round trip) — gives `fudge`,
            `original-id`, `time-signed`, `other-data`, `badtime-*`, `mac-length`, `mac-not-empty`,
            `alg-name`, `key-name`; `tsig-missing` / `two-tsig` / `tsig-not-last` / `tsig-class-ttl`
            follow from the rows of (h) once (1b) holds;
-      (1e) `response-mac`: `macFn` = HMAC of the RFC digest input (`C10_response_mac_eq_rfc`, (d)) — needs
-           the request's key name in lower case (the model's digest uses the name as sent);
+      (1e) (closed: `ServerContent.response_mac_audit`, for every writer with a pending `Response`-mode
+           TSIG — no hypothesis on the request's key name is needed, the model lower-cases it)
+           `response-mac`: `macFn` = HMAC of the RFC digest input (`C10_response_mac_eq_rfc`, (d)) over the
+           octets before the decoded record;
       (1f) `data-in-unauthenticated`, `tc-in-error`, `aa-in-error` (decoded facts in (g): an = ns = [];
            TC / AA clear need the header view of `signed_error_final`'s writer) and "answered
            normally": comparison with the response to the stripped request (`stripTsigRr`) — needs
@@ -185,6 +188,7 @@ import QV.Proofs.RequestOutcome
 import QV.Proofs.RequestFits
 import QV.Proofs.AuditWalk
 import QV.Proofs.AuditDecoded
+import QV.Proofs.AuditMac
 import QV.Proofs.ServerSignedTable
 
 namespace QV.C10
@@ -1366,28 +1370,20 @@ theorem AuditRun.scanM {cfg : Cfg} {cat : List Spec.Server.ZoneCfg} {tr : Transp
   exact ⟨by rw [← a1]; exact h.respond, hind h.verdict⟩
 
 open QV.ServerScan in
-/-- **audit clauses of a rejected request whose reply fits** (row 1), the MAC of a BADTIME reply being
-    left as a hypothesis (`hsigned`, discharged by `C10_audit_response_mac`): `tsig-missing`,
-    `two-tsig`, `tsig-rdata`, `tsig-not-last`, `tsig-class-ttl`, `key-name`, `alg-name`, `fudge`,
-    `original-id`, `id`, `tsig-error-*`, `rcode-*`, `mac-not-empty`, `badtime-other`,
-    `badtime-time-signed`, `other-data`, `time-signed`, `data-in-unauthenticated`, `tc-in-error`,
-    `aa-in-error` never arise -/
-theorem audit_rejected_core (cfg : Cfg) (cat : List Spec.Server.ZoneCfg) (tr : Transport) (now : Nat) (req : Bytes)
-    (hpay : 512 ≤ cfg.payload) (hp16 : cfg.payload ≤ 65535)
+/-- **audit of a rejected request whose reply fits** (row 1: BADKEY, FORMERR, BADSIG unsigned; BADTIME
+    signed): the audit returns no tag — `tsig-missing`, `two-tsig`, `tsig-rdata`, `tsig-not-last`,
+    `tsig-class-ttl`, `key-name`, `alg-name`, `fudge`, `original-id`, `id`, `tsig-error-*`, `rcode-*`,
+    `mac-not-empty`, `mac-length`, `response-mac` (`ServerContent.response_mac_audit`: the MAC is the
+    HMAC, under the audit's own key, of the RFC 8945 §4.3 digest input over the octets before the
+    decoded TSIG record), `badtime-other`, `badtime-time-signed`, `other-data`, `time-signed`,
+    `data-in-unauthenticated`, `tc-in-error`, `aa-in-error` never arise -/
+theorem C10_audit_rejected (cfg : Cfg) (cat : List Spec.Server.ZoneCfg) (tr : Transport) (now : Nat) (req : Bytes)
+    (hpay : 512 ≤ cfg.payload) (hp16 : cfg.payload ≤ 65535) (hk : KeysOK cfg.keys)
     {nowT : TimeSigned} {t : ReadTsigRr} {mw : Bytes} {r' : Reader.Reader} {question : Option (WName × Nat × Nat)}
     {d : Spec.Server.Delim} {kn alg : WName} {rest : List UInt8}
     (h : AuditRun cfg cat tr now req nowT t mw r' question d kn alg rest)
     (hrow : ServerContent.RowRejected cfg tr now 65535 req t mw)
-    (b : Bytes) (hb : handleMessage cfg tr now 65535 req = .ok (some b)) (plain : Spec.ServerTsig.Resp)
-    (hsigned : modelOutcome cfg.keys nowT kn alg rest mw.toList = .badTime →
-      ∀ dm restR o rf rkn, Spec.specDecodeMsg b = some dm → dm.ar = restR ++ [o] →
-        Spec.Tsig.parseRdata o.rdata = some rf → Spec.Tsig.labelsOf o.owner = some rkn →
-        rf.mac.length = (Spec.Tsig.outputSizeOf alg.labels).getD 0 ∧
-        ∃ k, Spec.ServerTsig.findKey (specKeys cfg.keys) kn.labels = some k ∧
-          rf.mac = hmSpec k.sha256 k.secret
-            (Spec.Tsig.digestInput .response (b.extract 0 o.pos).toList rf.originalId
-              { keyName := rkn, algName := rf.algName, timeSigned := rf.timeSigned, fudge := rf.fudge,
-                error := rf.error, other := rf.other } (fieldsOf alg.labels rest).mac)) :
+    (b : Bytes) (hb : handleMessage cfg tr now 65535 req = .ok (some b)) (plain : Spec.ServerTsig.Resp) :
     (Spec.ServerTsig.audit hmSpec cat cfg.payload (specKeys cfg.keys) req now (tr = .udp)
       (toResp (handleMessage cfg tr now 65535 req)) plain).1 = [] := by
   obtain ⟨hrM, iq, ie, il⟩ := h.scanM
@@ -1467,28 +1463,41 @@ theorem audit_rejected_core (cfg : Cfg) (cat : List Spec.Server.ZoneCfg) (tr : T
       (fun _ => ⟨rfl, hnow'⟩) (fun hbt => by rw [ho] at hbt; cases hbt) hnd g3 g2
   · refine auditResponse_rejected hmSpec _ _ _ _ _ _ now _ _ _ b plain dm o _ rkn hdm hfit' (by rw [ho]; decide)
       htsF q7 hl1 hlastT q4 q5 hl3 (halgL _ (algName_wf _) (stop_algName alg a ha)) rfl hoidm hidd (by rw [ho]; rfl) g6
-      (by rw [g1, ho]; rfl) (fun hn => absurd ho hn) (fun _ => hsigned ho dm restR o _ rkn hdm q1 q7 hl1)
+      (by rw [g1, ho]; rfl) (fun hn => absurd ho hn) (fun _ => ?_)
       (fun hn => absurd ho hn) (fun _ => ⟨?_, ?_⟩) hnd g3 g2
+    · -- the MAC of the signed reply
+      have hlowk : Tsig.lowerName kn'.wire = kn'.wire := by rw [hkw, lowerName_idem]
+      have wf := prepOf_wf kn' (viewRr kn alg rest) nowT 18 (ServerContent.labels_lower_of_wire kn' hkwf hlowk) (by omega)
+      have hreq : (viewRr kn alg rest).mac.length ≤ 65535 := by
+        have hm' : (viewRr kn alg rest).mac = (fieldsOf alg.labels rest).mac := hfa.mac.symm
+        rw [hm']
+        show ((rest.drop 10).take (Spec.Tsig.field16 rest 8)).length ≤ 65535
+        rw [List.length_take]
+        have : Spec.Tsig.field16 rest 8 ≤ 65535 := by
+          unfold Spec.Tsig.field16
+          have := (rest.getD 8 0).toNat_lt; have := (rest.getD (8 + 1) 0).toNat_lt; omega
+        omega
+      obtain ⟨rest', o', hdar', hlen, k, hfk, hall⟩ := ServerContent.response_mac_audit cfg.keys hk kn h.hkn a key hkey
+        F _ hG _ wf _ hreq _ hts b mac hf dm hdm
+      rw [q1] at hdar'
+      obtain ⟨_, eo⟩ := List.append_inj' hdar' rfl
+      simp only [List.cons.injEq, and_true] at eo
+      subst eo
+      refine ⟨?_, k, hfk, ?_⟩
+      · show (mac.getD []).length = _
+        rw [hlen]
+        show _ = (Spec.Tsig.outputSizeOf alg.labels).getD 0
+        rw [outputSizeOf_view alg h.halg, ha]; rfl
+      · have := hall rkn hl2
+        have hm' : (fieldsOf alg.labels rest).mac = (viewRr kn alg rest).mac := hfa.mac
+        rw [hm']
+        exact this
     · show (if (18 : Nat) = XR_BADTIME then nowT.asSlice else []) = Spec.Tsig.u48 now
       rw [e18, if_pos rfl, Tsig.asSlice_eq_spec, toUnix_tryFromUnix now nowT h.hnow]
     · show Spec.Tsig.nat48 (ReadTsigRr.timeSigned (viewRr kn alg rest)).asSlice = _
       rw [hnat, hfa.time]; rfl
 
 open QV.ServerScan in
-/-- **audit of the unsigned rejections** (row 1 with outcome BADKEY, FORMERR or BADSIG): the audit
-    returns no tag -/
-theorem C10_audit_rejected_unsigned (cfg : Cfg) (cat : List Spec.Server.ZoneCfg) (tr : Transport) (now : Nat)
-    (req : Bytes) (hpay : 512 ≤ cfg.payload) (hp16 : cfg.payload ≤ 65535)
-    {nowT : TimeSigned} {t : ReadTsigRr} {mw : Bytes} {r' : Reader.Reader} {question : Option (WName × Nat × Nat)}
-    {d : Spec.Server.Delim} {kn alg : WName} {rest : List UInt8}
-    (h : AuditRun cfg cat tr now req nowT t mw r' question d kn alg rest)
-    (hrow : ServerContent.RowRejected cfg tr now 65535 req t mw)
-    (hu : modelOutcome cfg.keys nowT kn alg rest mw.toList ≠ .badTime)
-    (b : Bytes) (hb : handleMessage cfg tr now 65535 req = .ok (some b)) (plain : Spec.ServerTsig.Resp) :
-    (Spec.ServerTsig.audit hmSpec cat cfg.payload (specKeys cfg.keys) req now (tr = .udp)
-      (toResp (handleMessage cfg tr now 65535 req)) plain).1 = [] :=
-  audit_rejected_core cfg cat tr now req hpay hp16 h hrow b hb plain (fun hbt => absurd hbt hu)
-
 /-! ## non-vacuity: concrete instances of the hypotheses used above -/
 
 /-- a writer as `handle_message` sets it up over TCP (65535 zeroed octets, header only) -/
